@@ -7,7 +7,8 @@ package pool
 //	C10  wrapper depth (stack frames under which a task runs; layers on returned tasks), per-task run counters (exactly once), Submit results, ShutdownNow's returned wrappers run in
 //	     a marked mode (never both, never neither, never twice), rejected tasks never run, a panicking
 //	     task does not stop the others, accepted tasks of a RUNNING pool get executed (not stranded)
-//	C11  high-water mark of a harness-side running counter and of numGoRunningTasks / totalGo samples
+//	C11  a States consumer (GoCnt / RunningTasksCnt <= maxGo, QueueSize, WaitingTasksCnt, channel closure, States after stop);
+//	     high-water mark of a harness-side running counter and of numGoRunningTasks / totalGo samples
 //	     <= maxGo, no task before Start, lifecycle calls: Start nil at most once, Shutdown/ShutdownNow nil
 //	     at most once between them, every call invoked after a successful shutdown fails
 //	C12  Shutdown's channel closes within a generous bound after the last task finishes and not before
@@ -32,6 +33,9 @@ import (
 	"github.com/ecodeclub/ekit/verifhook"
 	"verifharness/reg"
 )
+
+// States samples over the whole run (evidence: how often the transient spin-lock value stateLocked=5 is reported)
+var statesSamples, statesLocked, statesConsumers atomic.Int64
 
 type markKeyT struct{}
 
@@ -226,6 +230,72 @@ func oneRound(rng *rand.Rand, focus string) (string, int) {
 			runtime.Gosched()
 		}
 	}()
+	// a States consumer running concurrently with the Submit bursts / Start / Shutdown (C11: "the worker count reported by
+	// States", "concurrent ... States callers"): every State must satisfy 0 <= GoCnt <= maxGo, 0 <= RunningTasksCnt <= maxGo,
+	// QueueSize == cap(queue), 0 <= WaitingTasksCnt <= cap, PoolState in 1..5 (5 = the transient `locked` word is reported as
+	// is: counted, not an alarm); the channel is closed after its ctx ends and after the pool's interrupt context is cancelled
+	// (graceful completion or ShutdownNow).  RunningTasksCnt <= GoCnt is NOT required: the two fields are read one after the other.
+	var stCancel context.CancelFunc
+	var stClosed chan struct{}
+	cancelEarly := false
+	if focus == "c11" || rng.Intn(2) == 0 {
+		var sctx context.Context
+		sctx, stCancel = context.WithCancel(context.Background())
+		ch, e := p.States(sctx, time.Duration(30+rng.Intn(150))*time.Microsecond)
+		if e != nil {
+			stCancel()
+			return "states: States on a fresh pool failed: " + e.Error() + " [" + cfg + "]", 0
+		}
+		statesConsumers.Add(1)
+		cancelEarly = rng.Intn(3) == 0
+		stClosed = make(chan struct{})
+		capQ := qs
+		go func() {
+			defer close(stClosed)
+			for st := range ch {
+				statesSamples.Add(1)
+				if st.PoolState == 5 {
+					statesLocked.Add(1)
+				}
+				switch {
+				case st.GoCnt < 0 || st.GoCnt > r.maxGo:
+					r.fail(fmt.Sprintf("states: State.GoCnt=%d outside [0, maxGo=%d] (%+v)", st.GoCnt, r.maxGo, st))
+				case st.RunningTasksCnt < 0 || st.RunningTasksCnt > r.maxGo:
+					r.fail(fmt.Sprintf("states: State.RunningTasksCnt=%d outside [0, maxGo=%d] (%+v)", st.RunningTasksCnt, r.maxGo, st))
+				case st.QueueSize != capQ:
+					r.fail(fmt.Sprintf("states: State.QueueSize=%d, queue capacity is %d (%+v)", st.QueueSize, capQ, st))
+				case st.WaitingTasksCnt < 0 || st.WaitingTasksCnt > capQ:
+					r.fail(fmt.Sprintf("states: State.WaitingTasksCnt=%d outside [0, %d] (%+v)", st.WaitingTasksCnt, capQ, st))
+				case st.PoolState < 1 || st.PoolState > 5:
+					r.fail(fmt.Sprintf("states: State.PoolState=%d is no state code (%+v)", st.PoolState, st))
+				}
+			}
+		}()
+		if cancelEarly {
+			go func(d time.Duration) { time.Sleep(d); stCancel() }(time.Duration(rng.Intn(800)) * time.Microsecond)
+		}
+	}
+	statesEnd := func() string {
+		if stClosed == nil {
+			return ""
+		}
+		defer stCancel()
+		// the pool's interrupt context is cancelled by now (graceful completion or ShutdownNow): the channel must get closed
+		if !waitChan(stClosed, hangTicks) {
+			dumpGoroutines("states-not-closed")
+			return "states: the States channel is not closed although the pool has stopped [" + cfg + "]"
+		}
+		// States on a stopped pool reports the cancellation of the pool's context, States with a dead ctx that ctx's error
+		if ch, e := p.States(context.Background(), time.Millisecond); e == nil || ch != nil {
+			return "states: States on a stopped pool returned a channel [" + cfg + "]"
+		}
+		dead, dc := context.WithCancel(context.Background())
+		dc()
+		if ch, e := p.States(dead, time.Millisecond); e == nil || ch != nil {
+			return "states: States with a cancelled ctx returned a channel [" + cfg + "]"
+		}
+		return ""
+	}
 	// submitters
 	for s := 0; s < nsub; s++ {
 		wg.Add(1)
@@ -396,6 +466,9 @@ func oneRound(rng *rand.Rand, focus string) (string, int) {
 			}
 			_ = t.Run(mctx)
 		}
+	}
+	if msg := statesEnd(); msg != "" {
+		return msg, ntask
 	}
 	close(relStop)
 	close(stopSample)
@@ -582,7 +655,8 @@ func stressMain(args []string) {
 			return
 		}
 	}
-	fmt.Printf("ok rounds=%d tasks=%d directed_trials=%d\n", rounds, total, trials)
+	fmt.Printf("ok rounds=%d tasks=%d directed_trials=%d states_consumers=%d states_samples=%d states_poolstate_locked=%d\n",
+		rounds, total, trials, statesConsumers.Load(), statesSamples.Load(), statesLocked.Load())
 }
 
 var _ = option.Apply[ekpool.OnDemandBlockTaskPool]
